@@ -32,6 +32,10 @@ RULES = {
               "(an answer computed differently when the cache is cold makes the result depend on the order of the queries)",
     "C01-D1": "opposite_face(u, v, F, return_inds=True) returns (face, local index of u, local index of v): the names unpacked from "
               "direct_face(a, b, True) = (face, index of a, index of b) keep their roles",
+    "C01-W2": "both rotational tables of a vertex (corners and neighbour vertices) are sorted, unconditionally, by keys taken from the one "
+              "sort index built by the walks; a neighbour v is keyed by the corner of the half edge (A, v) leaving the vertex",
+    "C01-D3": "definitional accessors (other_edge_end, in_face_index, direct_face, common_edge) return what their definition says under "
+              "every ordering / truth assignment of their operands",
     "C01-D2": "derived accessors are element-wise maps of the rotationally sorted primary tables (same order, same length)",
 }
 
@@ -48,6 +52,8 @@ def run(ctx):
     w1_rotational_sort(ctx)
     d1_opposite_face(ctx)
     d2_derived_accessors(ctx)
+    w2_sorted_tables(ctx)
+    d3_definitional_accessors(ctx)
 
 
 # ----------------------------------------------------------------------- R-LAZY
@@ -647,3 +653,149 @@ def d2_derived_accessors(ctx):
     ok = isinstance(v, ast.Tuple) and [au.src(e) for e in v.elts] == [f"self.direct_face({ps[0]}, {ps[1]})", f"self.direct_face({ps[1]}, {ps[0]})"]
     ctx.check(ok, "C01-D2", ctx.site(SURF, fn), "edge_to_faces is not (direct_face(u,v), direct_face(v,u))",
               "the face on either side of an edge", note="edge_to_faces = both sides")
+
+
+# ----------------------------------------------------------------------- C01-W2
+def w2_sorted_tables(ctx):
+    fn = ctx.repo.func(SURF, CONN + "._sort_vertex_neighborhoods")
+    site = ctx.site(SURF, fn)
+    outer = [st for st in fn.body if isinstance(st, ast.For)]
+    if len(outer) != 1 or not isinstance(outer[0].target, ast.Name):
+        ctx.fail("C01-W2", site, "_sort_vertex_neighborhoods is no longer one loop over the vertices", "")
+        return
+    A = outer[0].target.id
+    sorts = {}
+    for st in outer[0].body:           # top level of the per-vertex body: unconditional
+        if isinstance(st, ast.Expr) and isinstance(st.value, ast.Call) and au.call_tail(st.value) == "sort" \
+                and isinstance(st.value.func.value, ast.Subscript) and au.is_self_attr(st.value.func.value.value) \
+                and au.src(st.value.func.value.slice) == A:
+            key = next((k.value for k in st.value.keywords if k.arg == "key"), None)
+            sorts[st.value.func.value.value.attr] = key
+    for field in ("_adjV2Cn", "_adjV2V"):
+        ctx.check(field in sorts, "C01-W2", site, f"self.{field}[{A}] is not sorted unconditionally for every vertex that has corners",
+                  "corners / neighbour vertices around a vertex must come in rotational order", note=f"{field} sorted per vertex")
+    # corner key = sort_index[c]
+    k = sorts.get("_adjV2Cn")
+    idx_name = None
+    ok = isinstance(k, ast.Lambda) and isinstance(k.body, ast.Subscript) and isinstance(k.body.value, ast.Name) \
+        and au.src(k.body.slice) == k.args.args[0].arg
+    if ok:
+        idx_name = k.body.value.id
+    ctx.check(ok, "C01-W2", site, "corners around a vertex are not sorted by the index assigned to them by the walks", "")
+    # vertex key = D[v] with D[v] = sort_index.get(half_edge_to_corner(A, v), <minimum>)
+    k = sorts.get("_adjV2V")
+    okv = False
+    if isinstance(k, ast.Lambda) and isinstance(k.body, ast.Subscript) and isinstance(k.body.value, ast.Name):
+        dname = k.body.value.id
+        for st in au.stmts(outer[0].body):
+            if isinstance(st, ast.Assign) and isinstance(st.targets[0], ast.Subscript) and au.src(st.targets[0].value) == dname:
+                v = au.src(st.targets[0].slice)
+                val = st.value
+                if isinstance(val, ast.Call) and au.call_tail(val) == "get" and isinstance(val.func.value, ast.Name) \
+                        and val.func.value.id == idx_name and val.args and isinstance(val.args[0], ast.Call) \
+                        and au.call_tail(val.args[0]) == "half_edge_to_corner":
+                    args = [au.src(a) for a in val.args[0].args]
+                    loops = [a for a in au.ancestors(st) if isinstance(a, ast.For)]
+                    over_all = bool(loops) and au.src(loops[0].iter) == f"self._adjV2V[{A}]" and not au.guards(st, stop=loops[0])
+                    okv = args == [A, v] and over_all
+    ctx.check(okv, "C01-W2", site,
+              f"neighbour vertices are not keyed by sort_index[corner of the half edge ({A}, v)] for every neighbour v",
+              "the neighbour reached by the half edge leaving the vertex at a corner takes the rank of that corner; the reversed half "
+              "edge belongs to another vertex's corners and has no rank here", note="vertex key = rank of corner of (A, v)")
+
+
+# ----------------------------------------------------------------------- C01-D3
+def d3_definitional_accessors(ctx):
+    repo = ctx.repo
+    # other_edge_end(E, V): A,B = edges[E]; V==A -> B ; V==B -> A ; else None
+    fn = repo.func(LIN, "PolyLine._Connectivity.other_edge_end")
+    site = ctx.site(LIN, fn)
+    ps = au.params(fn, skip_self=True)
+    ends = None
+    body = []
+    for st in fn.body:
+        if isinstance(st, ast.Assign) and isinstance(st.targets[0], ast.Tuple) and len(st.targets[0].elts) == 2 \
+                and isinstance(st.value, ast.Subscript) and au.src(st.value) == f"self.mesh.edges[{ps[0]}]":
+            ends = [x.id for x in st.targets[0].elts]
+        elif not (isinstance(st, ast.Expr) and isinstance(st.value, ast.Constant)):
+            body.append(st)
+    ok = False
+    if ends and len(ps) == 2:
+        try:
+            f = order.return_formula(body)
+            pred = order.Pred(lambda node: {ps[1]: "V", ends[0]: "A", ends[1]: "B"}.get(au.src(node)) or (_ for _ in ()).throw(order.Unsupported(au.src(node))))
+            ok = True
+            for env in order.envs({"V", "A", "B"}, set()):
+                if env["A"] == env["B"]:
+                    continue   # an edge never joins a vertex to itself
+                got = order.eval_formula(f, pred, env, leaf=lambda e, en: None if e is None or au.src(e) == "None" else {ends[0]: "A", ends[1]: "B"}.get(au.src(e), "?"))
+                want = "B" if env["V"] == env["A"] else ("A" if env["V"] == env["B"] else None)
+                if got != want:
+                    ok = False
+        except order.Unsupported:
+            ok = False
+    ctx.check(ok, "C01-D3", site, "other_edge_end(E, V) is not `the other endpoint of E if V is one of its endpoints, else None`", "",
+              note="other_edge_end under every ordering of (V, A, B)")
+    # in_face_index(F, V): for i,v in enumerate(faces[F]): if v == V: return i ; return None
+    fn = repo.func(SURF, CONN + ".in_face_index")
+    site = ctx.site(SURF, fn)
+    ps = au.params(fn, skip_self=True)
+    ok = False
+    for st in fn.body:
+        if isinstance(st, ast.For) and isinstance(st.iter, ast.Call) and au.call_tail(st.iter) == "enumerate" \
+                and au.src(st.iter.args[0]) == f"self.mesh.faces[{ps[0]}]" and isinstance(st.target, ast.Tuple):
+            i, v = (x.id for x in st.target.elts)
+            for s_ in st.body:
+                if isinstance(s_, ast.If) and isinstance(s_.test, ast.Compare) and isinstance(s_.test.ops[0], ast.Eq) \
+                        and {au.src(s_.test.left), au.src(s_.test.comparators[0])} == {v, ps[1]} \
+                        and len(s_.body) == 1 and isinstance(s_.body[0], ast.Return) and au.src(s_.body[0].value) == i:
+                    ok = True
+    last = fn.body[-1]
+    ok = ok and isinstance(last, ast.Return) and (last.value is None or au.src(last.value) == "None")
+    ctx.check(ok, "C01-D3", site, "in_face_index(F, V) is not `position of V in faces[F], None if absent`", "", note="in_face_index")
+    # direct_face: answers from the record iff (u,v) is a key
+    fn = repo.func(SURF, CONN + ".direct_face")
+    site = ctx.site(SURF, fn)
+    u, v = au.params(fn, skip_self=True)[:2]
+    ok = False
+    for st in fn.body:
+        if isinstance(st, ast.If) and isinstance(st.test, ast.Compare) and isinstance(st.test.ops[0], (ast.In, ast.NotIn)) \
+                and au.src(st.test.left) == f"({u}, {v})" and au.is_self_attr(st.test.comparators[0], "_half_edges"):
+            pos, neg = (st.body, st.orelse) if isinstance(st.test.ops[0], ast.In) else (st.orelse, st.body)
+            reads = [n for s_ in pos for n in au.walk(s_) if isinstance(n, ast.Subscript) and au.is_self_attr(n.value, "_half_edges")]
+            nones = [r for s_ in neg for r in au.stmts([s_]) if isinstance(r, ast.Return)]
+            ok = bool(reads) and all(au.src(r.slice) == f"({u}, {v})" for r in reads) and bool(nones) \
+                and all(au.src(r.value).replace(" ", "") in ("None", "(None,None,None)") for r in nones) \
+                and not any(isinstance(n, ast.Subscript) and au.is_self_attr(n.value, "_half_edges") for s_ in neg for n in au.walk(s_))
+    ctx.check(ok, "C01-D3", site, "direct_face(u, v) does not answer from the record of (u, v) exactly when that half edge exists (None otherwise)", "",
+              note="direct_face present / absent")
+    # common_edge(iF1, iF2): for each side (A,B) of F1: if opposite_face(A,B,iF1) == iF2: return keyify(A,B)
+    fn = repo.func(SURF, CONN + ".common_edge")
+    site = ctx.site(SURF, fn)
+    f1, f2 = au.params(fn, skip_self=True)[:2]
+    b = sym.Bindings(fn)
+    ok = False
+    for st in au.stmts(fn.body):
+        if isinstance(st, ast.If) and isinstance(st.test, ast.Compare) and isinstance(st.test.ops[0], ast.Eq):
+            sides = [st.test.left, st.test.comparators[0]]
+            call = next((x for x in sides if isinstance(x, ast.Call) and au.call_tail(x) == "opposite_face"), None)
+            other = next((x for x in sides if x is not call), None)
+            loops = [a for a in au.ancestors(st) if isinstance(a, ast.For)]
+            if call is None or other is None or au.src(other) != f2 or not loops:
+                continue
+            i = loops[0].target.id if isinstance(loops[0].target, ast.Name) else None
+            nsrc = au.src(loops[0].iter.args[0]) if isinstance(loops[0].iter, ast.Call) and loops[0].iter.args else None
+            args = [b.resolve(a, at=st, keep=(i, nsrc, f1)) for a in call.args]
+            offs = []
+            for a in args[:2]:
+                if isinstance(a, ast.Subscript) and au.src(b.resolve(a.value, at=st, keep=(f1,))) == f"self.mesh.faces[{f1}]":
+                    offs.append(sym.mod_offset(a.slice, i, nsrc))
+                else:
+                    offs.append(None)
+            n_ok = nsrc is not None and au.src(b.resolve(loops[0].iter.args[0], at=loops[0], keep=(f1,))) == f"len(self.mesh.faces[{f1}])"
+            ret = [r for r in st.body if isinstance(r, ast.Return)]
+            ret_ok = bool(ret) and isinstance(ret[0].value, ast.Call) and au.call_tail(ret[0].value) == "keyify" \
+                and [au.src(x) for x in ret[0].value.args] == [au.src(x) for x in call.args[:2]]
+            ok = n_ok and offs == [0, 1] and len(args) >= 3 and au.src(args[2]) == f1 and ret_ok
+    ctx.check(ok, "C01-D3", site, "common_edge(F1, F2) does not test every side (f[i], f[i+1]) of F1 for `opposite face across it is F2`", "",
+              note="common_edge over all sides")
